@@ -1,5 +1,6 @@
 import ThriftVerif.Properties.C12
 import ThriftVerif.Facts.ExpectWire
+import ThriftVerif.Facts.ExpectProto
 #print axioms ThriftVerif.Properties.C12.envelope_roundtrip_strict
 #print axioms ThriftVerif.Properties.C12.envelope_roundtrip_legacy
 #print axioms ThriftVerif.Properties.C12.legacy_empty_name_rejected
@@ -9,6 +10,11 @@ import ThriftVerif.Facts.ExpectWire
 #print axioms ThriftVerif.Properties.C12.response_echo
 #print axioms ThriftVerif.Properties.C12.apis_agree
 #print axioms ThriftVerif.Properties.C12.single_read_peek_breaks_agreement
+#print axioms ThriftVerif.Properties.C12.multiplexed_method_intact
+#print axioms ThriftVerif.Properties.C12.unmultiplexed_iff_no_colon
+#print axioms ThriftVerif.Properties.C12.multiplex_cut_at_first_colon
 #print axioms ThriftVerif.Facts.ExpectWire.typeCodes_ok
 #print axioms ThriftVerif.Facts.ExpectWire.envelopeTypes_ok
 #print axioms ThriftVerif.Facts.ExpectWire.version_ok
+#print axioms ThriftVerif.Facts.ExpectProto.muxSplit_ok
+#print axioms ThriftVerif.Facts.ExpectProto.muxJoin_ok
